@@ -218,7 +218,7 @@ def dispatch (op : String) (a : Args) : Option String :=
   | "threequarters" => do pure (jB a (threeQuarters val (← a.nat "B") (← a.items "items")))
   | "kk" => do pure (jE a (kk val (← a.nat "k") (← a.items "items")))
   | "ckk" => do
-      pure (jE a (ckk val nmOf (← a.nat "k") (← a.bool "contents") (← a.items "items") FUEL))
+      pure (jE a (ckkF val nmOf (← a.nat "k") (← a.bool "contents") (← a.items "items") FUEL))
   | "ckkgen" => do
       let bound : Option Nat ← match (← a.get "bound") with
         | "inf" => pure none
